@@ -6,7 +6,10 @@ Toks == Tags \cup {"a", "b"}
 Soups == UNION { [1..n -> Toks] : n \in 0..MaxTok }
 Wrappers == {"plain", "noinclude", "includeonly", "onlyinclude", "comment"}
 Contents == { <<>>, <<"a">>, <<"b", "a">> }
-SegLists == UNION { [1..n -> [w : Wrappers, c : Contents]] : n \in 0..MaxSeg }
+\* a comment may mention wrapper tags (maintainer notes): it stays a comment, the tags in it are inert
+CommentContents == Contents \cup { <<"NO">>, <<"NC">>, <<"a", "NO", "b">>, <<"OO">>, <<"OC">>, <<"IO">> }
+SegU == [w : Wrappers \ {"comment"}, c : Contents] \cup [w : {"comment"}, c : CommentContents]
+SegLists == UNION { [1..n -> SegU] : n \in 0..MaxSeg }
 VARIABLE case
 Init == IF Mode = "soup" THEN case \in { [toks |-> s] : s \in Soups } ELSE case \in { [segs |-> g] : g \in SegLists }
 Next == UNCHANGED case
